@@ -31,7 +31,7 @@ fn p(marker: &str) -> Stmt {
 // C11 templates
 
 const KINDS: usize = 5; // Block, If, IfElse, IfElifElse, While
-pub const TEMPLATE_SPACE: u64 = 4 * 155 * 27 * 4 * 4 * 2 * 2 * 2;
+pub const TEMPLATE_SPACE: u64 = 4 * 155 * 27 * 4 * 4 * 2 * 2 * 2 * 2;
 
 /// decode a template index into a program
 pub fn template(mut i: u64) -> Vec<Stmt> {
@@ -50,6 +50,8 @@ pub fn template(mut i: u64) -> Vec<Stmt> {
     // the nested construct is the LAST statement of the body that encloses it (its value is that body's value, and
     // whatever follows the enclosing construct comes directly after it), or sits between two markers
     let child_last = take(2) == 1;
+    // the innermost body is nothing but the early exit (`als c { stop } anders { … }`), or the usual markers around it
+    let bare = take(2) == 1;
     // chain -> depth and kinds
     let (depth, mut code) = if chain < 5 {
         (1, chain)
@@ -81,7 +83,11 @@ pub fn template(mut i: u64) -> Vec<Stmt> {
         _ => vec![],
     };
     let mut body: Vec<Stmt> = vec![];
-    if exit_first {
+    if bare {
+        if let Some(e) = exit_stmt.clone() {
+            body.push(e);
+        }
+    } else if exit_first {
         body.push(p("binnen a"));
         if let Some(e) = exit_stmt.clone() {
             body.push(e);
@@ -107,8 +113,14 @@ pub fn template(mut i: u64) -> Vec<Stmt> {
             1 => vec![Stmt::Expr(Expr::If { cond: Box::new(Expr::Bool(pick != 1)), cons: inner, alt: None })],
             2 => {
                 let other = vec![p(&format!("anders {}", lvl)), Stmt::Expr(Expr::Int(200 + lvl as i64))];
-                let (a, b) = if pick != 1 { (inner, other) } else { (other, inner) };
-                vec![Stmt::Expr(Expr::If { cond: Box::new(Expr::Bool(true)), cons: a, alt: Some(b) })]
+                // 0: the nest is the consequence and runs; 1: it is the alternative and runs; 2: it is the consequence and
+                // the alternative runs instead
+                let (a, b, c) = match pick {
+                    0 => (inner, other, true),
+                    1 => (other, inner, false),
+                    _ => (inner, other, false),
+                };
+                vec![Stmt::Expr(Expr::If { cond: Box::new(Expr::Bool(c)), cons: a, alt: Some(b) })]
             }
             3 => {
                 let o1 = vec![p(&format!("tak1 {}", lvl)), Stmt::Expr(Expr::Int(300 + lvl as i64))];
@@ -315,6 +327,15 @@ fn limit_cases() -> Vec<(&'static str, String, Val)> {
     for (name, n) in [("locals-300", 300usize), ("locals-70000", 70_000)] {
         let decls: String = (0..n).map(|i| format!("stel v{} = {};", i, i)).collect();
         v.push((name, format!("functie f() {{ {} v0 + v{} }} f()", decls, n - 1), Val::Int(n as i64 - 1)));
+    }
+    // the 16-bit stack index reached in steps of different size: the recursion uses two slots per level and runs out
+    // between depth 32 765 and 32 770; at the bottom a call is made with K array elements already on the stack
+    for d in 32_755i64..=32_772 {
+        for k in [0i64, 1, 2, 5, 10, 11, 12, 16, 31] {
+            let name: &'static str = Box::leak(format!("stack-boundary-{}-{}", d, k).into_boxed_str());
+            let items: String = (0..k).map(|x| format!("{}, ", x)).collect();
+            v.push((name, format!("functie g() {{ 1 }}; functie f(n) {{ als n == 0 {{ lengte([{}g()]) }} anders {{ 1 + f(n - 1) }} }}; f({})", items, d), Val::Int(d + k + 1)));
+        }
     }
     v.push(("function-after-70KB-of-code", format!("{} functie g(x) {{ x + 7 }} g(1)", "1;".repeat(20_000)), Val::Int(8)));
     v.push(("function-body-70KB", format!("functie g(x) {{ {} x + 7 }} g(1)", "1;".repeat(20_000)), Val::Int(8)));
@@ -619,7 +640,7 @@ impl Check for Flow {
             }
         }
         let rule = match self.which {
-            Which::C11 => "templates: nests of depth 1-3 over {block, als, als/anders, als/anders als/anders, zolang} in four wrappers (statement / value position, top level / function body), every choice of branch taken, one early exit (none, stop, volgende, antwoord) at the start or the end of the innermost body, the nested construct either between two markers or as the last statement of the enclosing body, four body endings (expression, declaration, nested block, nothing), a print marker at every point, checked against the reference model (strided in the quick tier, complete in the thorough tier); residue: 16 loop bodies x {top level, function} run for 0, 1, 2, 3, 1000 and 70000 iterations, the code after the loop (declares locals, calls functions) must give the same result every time, and the traced operand-stack height at every loop head must not change between iterations; control-profile random programs against the reference. distinct = distinct program texts",
+            Which::C11 => "templates: nests of depth 1-3 over {block, als, als/anders, als/anders als/anders, zolang} in four wrappers (statement / value position, top level / function body), every choice of branch taken, one early exit (none, stop, volgende, antwoord) at the start or the end of the innermost body, the nested construct either between two markers or as the last statement of the enclosing body, the innermost body either with markers around the exit or nothing but the exit, four body endings (expression, declaration, nested block, nothing), a print marker at every point, checked against the reference model (strided in the quick tier, complete in the thorough tier); residue: 16 loop bodies x {top level, function} run for 0, 1, 2, 3, 1000 and 70000 iterations, the code after the loop (declares locals, calls functions) must give the same result every time, and the traced operand-stack height at every loop head must not change between iterations; control-profile random programs against the reference. distinct = distinct program texts",
             Which::C12 => "directed call shapes (argument order, calls as non-first operands / array elements / arguments, direct, mutual and deep recursion, functions in variables and arrays, passed and returned) and calls-profile random programs against the reference model; frame discipline from the instruction trace: the callee's base pointer is exactly at its first argument, and after the return the caller's frame count, base pointer and stack height (minus arguments and callee, plus result) are restored; limit cases (recursion up to and past the 16-bit stack, 255/256/300 arguments, 300 and 70 000 locals, code beyond 64 KiB) with the weaker oracle 'the exact value or an error'. distinct = distinct program texts",
         };
         Summary {
